@@ -414,6 +414,8 @@ pub struct RunCtx {
     /// set-speed runs with `record_consists(true)`: the outcome of the real `walk()` on a clone of the
     /// freshly built simulation (result, final state, final resistance caches, final consist)
     pub ss_walk: Option<(Result<(), (i64, String)>, TrainState, [usize; 4], Consist)>,
+    /// set-speed runs: the train parameters the builder handed to PathTpc::new
+    pub tp: Option<TrainParams>,
 }
 
 pub fn route_json(rt: &Route) -> Value {
@@ -465,9 +467,9 @@ fn ss_run_inner(r: &mut Rng, id: String, o: &SsOpts, trunc: Option<bool>) -> Run
     let b = builder(&train, init, false);
     let trace = SpeedTrace::new(times.clone(), speeds.clone(), None);
     let made = catch(std::panic::AssertUnwindSafe(|| b.make_set_speed_train_sim_and_parts(&route.network, &route.path, trace, Some(1))));
-    let mut ctx = RunCtx { stuck: None, recalcs: vec![], id, tags, envs: vec![], rp: [0.0; 4], times: times.clone(), speeds: speeds.clone(), steps: vec![], aborted: None, input, route, finished_ok: false, ss_walk: None };
+    let mut ctx = RunCtx { stuck: None, recalcs: vec![], id, tags, envs: vec![], rp: [0.0; 4], times: times.clone(), speeds: speeds.clone(), steps: vec![], aborted: None, input, route, finished_ok: false, ss_walk: None, tp: None };
     let (mut sim, path) = match made {
-        Ok(Ok((sim, _tp, path, _tr, _fb))) => (sim, path),
+        Ok(Ok((sim, tp, path, _tr, _fb))) => { ctx.tp = Some(tp); (sim, path) }
         Ok(Err(e)) => { ctx.aborted = Some(format!("{:#}", e)); return ctx; }
         Err(p) => { ctx.aborted = Some(format!("panic: {}", p)); return ctx; }
     };
@@ -545,7 +547,7 @@ pub fn sl_run(r: &mut Rng, id: String, o: &SlOpts) -> RunCtx {
     tags.push(format!("dt:{}", o.dt));
     let input = json!({"sim": "speed_limit", "route": route_json(&route), "train": train_json(&train), "schedule": o.schedule, "dt": o.dt,
         "ramp_up_time": o.ramp_up_time});
-    let mut ctx = RunCtx { stuck: None, recalcs: vec![], id, tags, envs: vec![], rp: [0.0; 4], times: vec![], speeds: vec![], steps: vec![], aborted: None, input, route, finished_ok: false, ss_walk: None };
+    let mut ctx = RunCtx { stuck: None, recalcs: vec![], id, tags, envs: vec![], rp: [0.0; 4], times: vec![], speeds: vec![], steps: vec![], aborted: None, input, route, finished_ok: false, ss_walk: None, tp: None };
     let mut sim = match made { Ok(s) => s, Err(m) => { ctx.aborted = Some(m); return ctx; } };
     if !is_strap(&sim.train_res) { ctx.aborted = Some("not strap".into()); return ctx; }
     ctx.rp = res_params(&sim.train_res);
